@@ -74,7 +74,8 @@ pub fn obtain_uncached<T: Real>(case: &Case) -> Result<Arc<dyn Fft<T>>, Outcome>
                 Some(p) => p,
                 None => return Err(Outcome::skip(format!("planner {:?} unavailable in this configuration", case.planner))),
             };
-            match catch(|| pl.plan(case.n, case.dir)) {
+            // odd lengths go through plan_fft_forward / plan_fft_inverse, even ones through plan_fft(len, direction)
+            match catch(|| if case.n % 2 == 1 { pl.plan_named(case.n, case.dir) } else { pl.plan(case.n, case.dir) }) {
                 Ok(f) => f,
                 Err(p) => return Err(Outcome::bad(format!("planning n={} panicked: {} @ {}", case.n, p.msg, p.loc))),
             }
@@ -86,7 +87,7 @@ pub fn obtain_uncached<T: Real>(case: &Case) -> Result<Arc<dyn Fft<T>>, Outcome>
             };
             let mut got = None;
             for (i, r) in reqs.iter().enumerate() {
-                match catch(|| pl.plan(r.n, r.dir)) {
+                match catch(|| if (r.n + i) % 2 == 1 { pl.plan_named(r.n, r.dir) } else { pl.plan(r.n, r.dir) }) {
                     Ok(f) => {
                         if i == *pick {
                             got = Some(f);
